@@ -6,6 +6,10 @@ CONSTANTS
   AB_ViewRestart = FALSE
   AB_AxisLenConst = FALSE
   AB_GetAxisOffByOne = FALSE
+  NthArgs = {0, 1, 2, 9}
+  NthBudget = 2
+  NthMaxCells = 12
+  AB_NthUnclamped = FALSE
   AB_View0Dim = FALSE
   ShapeSet <- MCCatalogue
 INVARIANTS
